@@ -373,6 +373,28 @@ fn build_inputs(args: &Args, rng: &mut Rng) -> Vec<Input> {
         push("many-docs", "--- 1\n".repeat(d.min(100_000)).into_bytes(), &mut v);
         push("signs", format!("x: {}1\ny: {}\n", "-".repeat(d.min(100_000)), "(".repeat(d.min(100_000))).into_bytes(), &mut v);
     }
+    // anchors in every arrangement the anchor table has to cope with: nested anchored containers (a container's anchor is stored
+    // when it closes, after those inside it), many sibling anchors, anchors inside a part of the stream the iterator skips after a
+    // failed document, anchor ids that keep growing over the documents of a stream
+    for n in [2usize, 7, 8, 9, 16, 17, 33, 64, 200] {
+        let mut f = String::new();
+        for i in 0..n { f.push_str(&format!("&n{i} [")); }
+        f.push('1');
+        for _ in 0..n { f.push(']'); }
+        f.push('\n');
+        push("nested-anchors", f.clone().into_bytes(), &mut v);
+        let mut b = String::new();
+        for i in 0..n { b.push_str(&format!("{}k{i}: &m{i}\n", " ".repeat(i))); }
+        b.push_str(&format!("{}leaf: 1\n", " ".repeat(n)));
+        push("nested-anchors", b.into_bytes(), &mut v);
+        let sib: String = (0..n).map(|i| format!("- &s{i} {i}\n")).collect();
+        push("sibling-anchors", format!("{sib}- *s0\n").into_bytes(), &mut v);
+        // a document that fails for typed targets at its first item, its remainder full of anchors, then documents with anchors
+        let rest: String = (0..n).map(|i| format!(", &r{i} {i}")).collect();
+        push("skipped-anchors", format!("--- [oops{rest}]\n--- &after [1]\n--- [&z 2, *z]\n").into_bytes(), &mut v);
+        let docs: String = (0..n.min(40)).map(|i| format!("--- &d{i} [{i}, *d{i}x]\n")).collect();
+        push("stream-anchors", docs.replace("x]", "]").replace(", *d", ", &e").into_bytes(), &mut v);
+    }
     // alias bombs (bounded by the replay limits)
     let mut bomb = String::from("a0: &a0 [x, x]\n");
     for i in 1..30 { bomb.push_str(&format!("a{i}: &a{i} [*a{}, *a{}]\n", i - 1, i - 1)); }
